@@ -226,11 +226,8 @@ func init() {
 				if thorough {
 					bound++
 				}
-				if op.heavy && bound > 1 {
-					bound--
-				}
 				scns = append(scns, fw.Scenario{ID: "C02/" + op.name + "/" + place, Group: op.name, Run: func(c *fw.Ctx) {
-					c.Explore(fw.Case{Name: "2producers", Bound: bound, Sample: place == "bare", Opts: vrt.Options{MaxTime: int64(op.maxTime)}, Make: func() fw.Instance {
+					c.Explore(fw.Case{Name: "2producers", Bound: bound, Sample: place == "bare", Opts: vrt.Options{MaxTime: int64(op.maxTime), DelayBounded: op.heavy}, Make: func() fw.Instance {
 						set := &recSet{}
 						out := h.NewRec("out")
 						out.YieldIn = true
